@@ -153,6 +153,7 @@ static void judge(const tmat_t *T, const mref_t *m, int vkind, const fcfg_t *c, 
         n_judged++;
         if (r->info != 0) { VIOL("C01:info", "nonsingular input (cond1=%.3Lg) but info=%d", m->cond1, r->info); return; }
         if (r->a_changed) VIOL("C01:A-modified", "A differs from the pristine copy (part %d)", r->a_changed);
+        if (r->pad_touched) VIOL("C01:B-padding-touched", "rows n..ldb-1 of %s (leading dimension n+%d) were written", r->pad_touched == 1 ? "B" : "X", c->ldb_extra);
         if (r->wf) { n_skipped++; return; }
         ld ratio;
         if (c->nrhs > 0 && check_solve_residual(r->A, n, r->perm_r, r->perm_c, r->Ld, r->Ud, c->as_nr, r->B0, r->X, c->nrhs, n, &ratio, msg, sizeof msg))
@@ -249,12 +250,14 @@ static void grid_cfg(const char *g, int k, int n, fcfg_t *c) {
 }
 static int next_perm(int *p, int n) { int i = n - 2; while (i >= 0 && p[i] > p[i + 1]) i--; if (i < 0) return 0; int j = n - 1; while (p[j] < p[i]) j--; int t = p[i]; p[i] = p[j]; p[j] = t; for (int a = i + 1, b = n - 1; a < b; a++, b--) { t = p[a]; p[a] = p[b]; p[b] = t; } return 1; }
 
+static int VF_RUN_TIMEOUT;
 static void run_and_judge(const tmat_t *T, const mref_t *m, int vkind, int salt, const fcfg_t *c) {
     static fres_t r; char cs[600];
     /* after a death the sweep resumes behind the configuration that died (same matrix) */
     G->cfg_no++;
     if (G->resume_cfg && G->cfg_no <= G->resume_cfg) return;
     case_str(T, salt, vkind, c, cs, sizeof cs);
+    if (VF_RUN_TIMEOUT > 0) vf_case_timer(VF_RUN_TIMEOUT);        /* the limit is per library run (CPU time), not per matrix */
     if (vf_sh) { snprintf((char *)vf_sh->note, sizeof vf_sh->note, "%s", cs); }
     run_factor_case(T, c, &r);
     if (samples_left > 0 && (r.info == 0 || !strcmp(PROP, "C06")) && T->nnz > T->n) { samples_left--; out_sample(PROP, "%s -> info=%d nsuper=%d nnzL=%d nnzU=%d", cs, r.info, r.nsuper, r.Lnnz, r.Unnz); }
@@ -292,9 +295,13 @@ static void cases_for_matrix(const tmat_t *T, int vkind, int salt) {
         static const int PS[4] = { 1, 2, 3, 5 };
         int np = !strcmp(SW.grid, "full") ? 4 : 2;
         int nord = !strcmp(SW.grid, "full") ? 4 : 2;
-        for (int g = 0; g < ng; g++) for (int nr = 0; nr < 2; nr++) for (int nrhs = 0; nrhs <= 2; nrhs++) for (int oi = 0; oi < nord; oi++) for (int pi = 0; pi < np; pi++) {
+        /* (nrhs, padding rows below B): B with leading dimension > n and several columns exercises every stride of the triangular solves */
+        static const int RH[5][2] = { { 0, 0 }, { 1, 0 }, { 2, 2 }, { 2, 0 }, { 1, 3 } };
+        int nrh = !strcmp(SW.grid, "full") ? 5 : 3;
+        for (int g = 0; g < ng; g++) for (int nr = 0; nr < 2; nr++) for (int rh = 0; rh < nrh; rh++) for (int oi = 0; oi < nord; oi++) for (int pi = 0; pi < np; pi++) {
+            int nrhs = RH[rh][0];
             if (strcmp(SW.grid, "full") && nrhs == 0 && (g || oi)) continue;
-            fcfg_default(&c); grid_cfg(SW.grid, g, n, &c); c.driver = DRV_GSSV; c.as_nr = nr; c.nrhs = nrhs; c.ordering = !strcmp(SW.grid, "full") ? oi : (oi ? 3 : 0); c.nprocs = PS[pi];
+            fcfg_default(&c); grid_cfg(SW.grid, g, n, &c); c.driver = DRV_GSSV; c.as_nr = nr; c.nrhs = nrhs; c.ldb_extra = RH[rh][1]; c.ordering = !strcmp(SW.grid, "full") ? oi : (oi ? 3 : 0); c.nprocs = PS[pi];
             run_and_judge(T, &m, vkind, salt, &c);
         }
     } else if (!strcmp(PROP, "C06")) {
@@ -378,7 +385,7 @@ static int replay_one(const char *s) {
     static tmat_t T; fcfg_t c; fcfg_default(&c); int n = 0, salt = 0, vk = 0; char pat[200] = "", force[32] = "";
     const char *p;
 #define GETI(key, var) if ((p = strstr(s, key "="))) var = atoi(p + strlen(key) + 1)
-    GETI("n", n); GETI("salt", salt); GETI("vk", vk); GETI("drv", c.driver); GETI("nr", c.as_nr); GETI("nrhs", c.nrhs); GETI("ord", c.ordering);
+    GETI("n", n); GETI("salt", salt); GETI("vk", vk); GETI("drv", c.driver); GETI("nr", c.as_nr); GETI("nrhs", c.nrhs); GETI("ldbx", c.ldb_extra); GETI("ord", c.ordering);
     GETI(" P", c.nprocs); GETI(" w", c.w); GETI("rlx", c.relax); GETI("ms", c.maxsuper); GETI("rb", c.rowblk); GETI("cb", c.colblk);
     GETI("sym", c.symmetric); GETI("dyn", c.dyn); GETI("tr", c.trans); GETI("fact", c.fact); GETI("f7", c.fill7); GETI("f8", c.fill8);
     if ((p = strstr(s, " u="))) c.u = atof(p + 3);
@@ -406,7 +413,7 @@ int main(int argc, char **argv) {
     SW.n = arg_int(argc, argv, "--n", 3); SW.vkind = arg_int(argc, argv, "--vkind", 0); SW.salt = arg_int(argc, argv, "--salt", 0);
     SW.grid = arg_str(argc, argv, "--grid", "quick"); SW.forced = arg_int(argc, argv, "--forced", 0);
     const char *sl = arg_str(argc, argv, "--slice", "0/1"); sscanf(sl, "%d/%d", &SW.islice, &SW.nslice);
-    int timeout = arg_int(argc, argv, "--timeout", 20);
+    int timeout = arg_int(argc, argv, "--timeout", 20); VF_RUN_TIMEOUT = timeout;
     double deadline = atof(arg_str(argc, argv, "--deadline", "1e9")); double t0 = now_s();
     long total = 0, done = 0; int complete = 1;
     if (!strcmp(family, "sympat")) { SYMPAT = 1; family = "pat"; }
@@ -425,7 +432,7 @@ int main(int argc, char **argv) {
                 pid_t pid = fork();
                 if (pid == 0) {
                     signal(SIGALRM, vf_alarm); vf_install_fault_handlers();
-                    for (unsigned long long i = next; i < b; i++) { vf_sh->cur = (long)i; alarm(timeout); case_fn((long)i, NULL); G->resume_cfg = 0; G->resumes = 0; }
+                    for (unsigned long long i = next; i < b; i++) { vf_sh->cur = (long)i; vf_case_timer(timeout); case_fn((long)i, NULL); G->resume_cfg = 0; G->resumes = 0; }
                     vf_sh->done = 1; fflush(NULL); _exit(0);
                 }
                 int st = 0; waitpid(pid, &st, 0); vf_last_child = pid;
